@@ -130,6 +130,50 @@ static void bfs(Tape& t, Ctx& c)
 {
   // no NodeFunctional: unisolvence through the local least-squares span test (Q3 on parallelograms, P3 on bilinear cells)
   ElemCfg e = {"BognerFoxSchmit", 3, true, false, false, 0, 0, 3, 3, 2};
-  Check<Space::BognerFoxSchmit::Element<Trf<H2>>, true, true, false>::run(t, c, e);
+  // 1D variant as well (intervals in either vertex order: the derivative dofs of a reversed cell must still mean +u')
+  if(t.pick({3, 1}) == 0) Check<Space::BognerFoxSchmit::Element<Trf<H2>>, true, true, false>::run(t, c, e);
+  else if(t.flag(1, 2)) Check<Space::BognerFoxSchmit::Element<Trf<H1>>, true, true, false>::run(t, c, e);
+  else
+  {
+    // global C1 conformity in 1D: with ANY coefficient vector the discrete function and its first derivative are continuous
+    // at every interior vertex (the two global dofs of a vertex mean u(x_v) and u'(x_v) for both adjacent cells, whatever
+    // their vertex order), and a global cubic is reproduced by setting the dofs to its values and derivatives
+    typedef Check<Space::BognerFoxSchmit::Element<Trf<H1>>, true, true, false> CK; typedef Shape::Hypercube<1> SH;
+    c.desc.set("elem", "BognerFoxSchmit"); c.desc.set("shape", "H1"); c.label("elem:BognerFoxSchmit:H1"); c.op = "c1conf"; c.desc.set("op", "c1conf"); c.label("op:c1conf");
+    GenOpt go; go.min_cells = 2; go.allow_reversed_1d = true; MeshData<SH> md0 = gen_mesh<SH>(t, c, go); CK::Setup s(std::move(md0)); c.desc.set("mesh", s.md.desc);
+    const Index nd = s.space.get_num_dofs(); std::vector<double> coef((size_t)nd); for(auto& x : coef) x = double(t.range(0, 64) - 32) / 8.0;
+    { bool rev = false; for(auto& cl : s.md.cells) if(s.md.vtx[size_t(cl[0])][0] > s.md.vtx[size_t(cl[1])][0]) rev = true; c.label(rev ? "c1conf:has-reversed-cell" : "c1conf:all-left-to-right"); }
+    c.desc.set("coef", J(coef)); c.nontrivial = s.md.nc() >= 2; c.announce();
+    const double ca = 0.5, cb = -1.25, cc = 0.75, cd = 0.375;   // cubic p(x) = ca + cb x + cc x^2 + cd x^3
+    struct Side { double val, der, pval, pder; }; std::map<int, std::vector<Side>> at_vertex;
+    typename CK::Ev ev(s.trafo, s.space);
+    for(int cell = 0; cell < s.md.nc(); ++cell)
+    {
+      ev.prepare(Index(cell)); VF_CHECK(ev.n == 4, "1D BFS cell has " << ev.n << " local dofs");
+      // dofs of the cubic through the vertex/derivative meaning: dof 2v = p(x_v), dof 2v+1 = p'(x_v) (DofAssignment: 2 per vertex)
+      for(int k = 0; k < 2; ++k)
+      {
+        const double xi = (k == 0) ? -1.0 : 1.0; ev.at(&xi); const int v = s.md.cells[size_t(cell)][size_t(k)]; const double xv = s.md.vtx[size_t(v)][0];
+        Side sd{0, 0, 0, 0};
+        for(int i = 0; i < ev.n; ++i)
+        {
+          const Index g = ev.dm.get_index(i); const double pc = (g % 2 == 0) ? 0.0 : 0.0; (void)pc;
+          sd.val += coef[size_t(g)] * ev.sd.phi[i].value; sd.der += coef[size_t(g)] * ev.grad(i, 0);
+          const int gv = int(g / 2); const double xg = s.md.vtx[size_t(gv)][0]; const double pg = (g % 2 == 0) ? (ca + cb * xg + cc * xg * xg + cd * xg * xg * xg) : (cb + 2 * cc * xg + 3 * cd * xg * xg);
+          sd.pval += pg * ev.sd.phi[i].value; sd.pder += pg * ev.grad(i, 0);
+        }
+        const double pex = ca + cb * xv + cc * xv * xv + cd * xv * xv * xv, dex = cb + 2 * cc * xv + 3 * cd * xv * xv, sc = 1.0 + std::fabs(xv) * std::fabs(xv) * std::fabs(xv);
+        VF_CHECK(std::fabs(sd.pval - pex) <= 1e-11 * sc * 8 && std::fabs(sd.pder - dex) <= 1e-10 * sc * 8 / s.md.hmin, "1D BFS: dofs set to the values and derivatives of a cubic give u_h(x_v) = " << sd.pval << ", u_h'(x_v) = " << sd.pder << " at vertex " << v << " of cell " << cell << ", the cubic has " << pex << ", " << dex);
+        at_vertex[v].push_back(sd);
+      }
+      ev.finish();
+    }
+    for(auto& kv : at_vertex) if(kv.second.size() == 2)
+    {
+      const Side& a = kv.second[0]; const Side& b = kv.second[1]; const double sc = 8.0 / s.md.hmin;
+      VF_CHECK(std::fabs(a.val - b.val) <= 1e-12 * 64, "1D BFS function jumps at interior vertex " << kv.first << ": " << a.val << " vs " << b.val);
+      VF_CHECK(std::fabs(a.der - b.der) <= 1e-11 * 64 * sc, "1D BFS derivative jumps at interior vertex " << kv.first << ": " << a.der << " vs " << b.der << " (the space is C1)");
+    }
+  }
 }
 C15_MAIN({"bernstein2", bernstein2, 96, 8, 30000}, {"p2bubble", p2bubble, 96, 8, 30000}, {"hermite3", hermite3, 96, 8, 30000}, {"argyris", argyris, 96, 8, 30000}, {"bfs", bfs, 96, 8, 30000})
